@@ -103,22 +103,36 @@ impl<I: Clone, O: Clone, C: WorkCoalescingCore<I, O>> WorkCoalescingQueue<I, O, 
     /// then return the output associated with this input.
     pub fn do_work(&self, input: I) -> O {
         let mut waiter = self.wait_list.link(WaitState::Input(input));
+        #[cfg(rescrv_blue_verif)]
+        let vidx = waiter.index();
+        #[cfg(rescrv_blue_verif)]
+        crate::verif::emit("wcq.link", [vidx, 0, 0]);
         let (work, mut core, taken) = {
             let mut state = self.state.lock().unwrap();
             while state.doing_work || !waiter.is_head() {
                 match waiter.load() {
                     WaitState::Input(_) => {
                         AWAIT_INPUT.click();
+                        #[cfg(rescrv_blue_verif)]
+                        crate::verif::emit("wcq.park", [vidx, 0, 0]);
                         state = waiter.naked_wait(state);
+                        #[cfg(rescrv_blue_verif)]
+                        crate::verif::emit("wcq.wake", [vidx, 0, 0]);
                     }
                     WaitState::Stolen => {
                         AWAIT_STOLEN.click();
+                        #[cfg(rescrv_blue_verif)]
+                        crate::verif::emit("wcq.park", [vidx, 1, 0]);
                         state = waiter.naked_wait(state);
+                        #[cfg(rescrv_blue_verif)]
+                        crate::verif::emit("wcq.wake", [vidx, 0, 0]);
                     }
                     WaitState::Output(o) => {
                         SAW_OUTPUT.click();
                         self.wait_list.unlink(waiter);
                         self.wait_list.notify_head();
+                        #[cfg(rescrv_blue_verif)]
+                        crate::verif::emit("wcq.leave", [vidx, 0, 0]);
                         return o;
                     }
                 }
@@ -134,6 +148,8 @@ impl<I: Clone, O: Clone, C: WorkCoalescingCore<I, O>> WorkCoalescingQueue<I, O, 
                     SAW_OUTPUT.click();
                     self.wait_list.unlink(waiter);
                     self.wait_list.notify_head();
+                    #[cfg(rescrv_blue_verif)]
+                    crate::verif::emit("wcq.leave", [vidx, 1, 0]);
                     return o;
                 }
             }
@@ -157,20 +173,30 @@ impl<I: Clone, O: Clone, C: WorkCoalescingCore<I, O>> WorkCoalescingQueue<I, O, 
                     }
                 };
             }
+            #[cfg(rescrv_blue_verif)]
+            crate::verif::emit("wcq.lead", [vidx, taken as u64, 0]);
             (work, core, taken)
         };
         let outputs = core.work(taken, work);
         for (mut w, out) in std::iter::zip(waiter.iter().take(taken), outputs) {
             w.store(WaitState::Output(out));
             w.notify();
+            #[cfg(rescrv_blue_verif)]
+            crate::verif::emit("wcq.deliver", [vidx, w.index(), 0]);
         }
         if let WaitState::Output(o) = waiter.load() {
             self.wait_list.unlink(waiter);
+            #[cfg(rescrv_blue_verif)]
+            crate::verif::emit("wcq.leader_unlink", [vidx, 0, 0]);
             {
                 let mut state = self.state.lock().unwrap();
                 state.doing_work = false;
+                #[cfg(rescrv_blue_verif)]
+                crate::verif::emit("wcq.clear", [vidx, 0, 0]);
             }
             self.wait_list.notify_head();
+            #[cfg(rescrv_blue_verif)]
+            crate::verif::emit("wcq.notify_head", [vidx, 0, 0]);
             o
         } else {
             panic!("Thread gave everyone except itself an output.");
